@@ -20,6 +20,7 @@ WREF = ("rules.shared_refusals", "write_refusals", "ctx")
 
 FOREIGN = {
     "C01": [  # write -> read round trip
+        (("rules.C12", "misuse_rules", "facts"), "every opener accepts every documented option combination: levels are validated in one place, for the method actually used"),
         (WREF, "the writer turns away no call sequence it used to accept"),
         (RREF, "... and the reader no archive it used to accept: what was written is read back"),
         (("rules.C02", "flag_rules", "ctx"), "names are flagged UTF-8 exactly when non-ASCII, so they read back as the same string"),
@@ -128,6 +129,8 @@ FOREIGN = {
         (("rules.shared_count", "count_rule", "facts"), "a partially accepted write is accounted as exactly the accepted bytes: retrying the rest is legal use"),
     ],
     "C19": [
+        (("rules.C01", "mode_rules", "ctx"), "a directory name given with a trailing separator is stored as given (both separators are honoured)"),
+        (("rules.C14", "name_rules", "facts"), "a raw copy keeps the decoded name (not a re-decoding of the raw bytes under another encoding)"),
         (("rules.C01", "patchoff_rules", "ctx"), "the stored name bytes are not overwritten: the ZIP64 back-patch lands behind the name's BYTE length"),
         (("rules.shared_count", "exact_rule", "facts"), "name and comment bytes are read with exact-length primitives (a bare read() truncates them on a short read)"),
     ],
